@@ -374,11 +374,14 @@ Definition call (g : bytes) (args : list xvalue) : xout xvalue :=
 
 (* bodies shared by the mutually recursive evaluators (Go: evaluateOperatorValue is called from
    evaluateNodeValue and from evaluateNodeValueWithNull on the same node) *)
+Definition is_vnull (v : xvalue) : bool := match v with VNull => true | _ => false end.
 Definition cmp_body (c : xcmpop) (ra rb : xout xvalue) : xout bool :=
   obind ra (fun a => obind rb (fun b => of_res (cmp_values c a b))).
 Definition bin_body (o : xbinop) (ra rb : xout (xvalue * bool)) : xout xvalue :=
   obind ra (fun a => obind rb (fun b =>
-    if snd a || snd b then OVal VNull
+    (* leftIsNull || rightIsNull || left == nil || right == nil  (the value test is the repair of
+       finding F18: a nested arithmetic operand reports NULL as (nil, isNull = false)) *)
+    if snd a || snd b || is_vnull (fst a) || is_vnull (fst b) then OVal VNull
     else match to_float (fst a) with
          | None => OErr
          | Some x => match to_float (fst b) with
